@@ -623,3 +623,79 @@ Definition c09_show_const (c : val * Z * option fn * result obs) := let '(v, n, 
 Definition c09_check_func (c : binding * list val * Z * result obs) : bool :=
   let '(b, cfg, n, o) := c in res_eqb (func_np b cfg n) o.
 Definition c09_show_func (c : binding * list val * Z * result obs) := let '(b, cfg, n, o) := c in func_np b cfg n.
+
+(* ------------------------------------------------------------------ *)
+(* Part 4: sessions over several constant / function column OBJECTS     *)
+(* ------------------------------------------------------------------ *)
+(* State made explicit: the column objects created so far (each with its CURRENT binding /
+   configuration / value, its current [length], and the size that was written into its declared
+   type name, e.g. 20 for VARCHAR[20]) and the state of the one stateful binding the harness
+   uses (a counter shared by the columns of a session).  A step creates a column, expands one,
+   or rebinds a column's configuration / length.  What an expansion answers is computed from
+   the CURRENT fields of that one column (and, for the counter, the number of calls so far):
+   there is no memo, nothing is shared between columns, the declared size is not consulted. *)
+Inductive sbinding := SPure (b : binding) | SCounter.
+Inductive skind := KFunc (b : sbinding) (cfg : list val) | KConst (v : val).
+Record scol := mkscol { sc_kind : skind; sc_len : Z; sc_decl : option N }.
+
+Inductive sstep :=
+| SNew (c : scol)                       (* Column(type=..., length=n, ...) *)
+| SMat (i : nat)                        (* columns[i].materialize() *)
+| SSetCfg (i : nat) (cfg : list val)    (* columns[i].configuration = cfg *)
+| SSetLen (i : nat) (n : Z).            (* columns[i].length = n *)
+
+Definition mat_only (r : result obs) : result (list val * dtype) :=
+  match r with
+  | Raise e => Raise e
+  | Ok o => Ok (last (o_vals o) [], last (o_dts o) DObj)
+  end.
+
+(* one expansion: (answer, counter state afterwards) *)
+Definition scol_mat (c : scol) (ticks : Z) : result (list val * dtype) * Z :=
+  match sc_kind c with
+  | KFunc (SPure b) cfg => (mat_only (func_np b cfg (sc_len c)), ticks)
+  | KFunc SCounter _ => (mat_only (func_np BFirst [VInt ticks] (sc_len c)), (ticks + 1)%Z)
+  | KConst v => (mat_only (const_np v (sc_len c) None), ticks)
+  end.
+
+Fixpoint set_col (i : nat) (f : scol -> scol) (cols : list scol) : list scol :=
+  match cols, i with
+  | [], _ => []
+  | c :: r, O => f c :: r
+  | c :: r, S j => c :: set_col j f r
+  end.
+
+Definition with_cfg (cfg : list val) (c : scol) : scol :=
+  match sc_kind c with
+  | KFunc b _ => mkscol (KFunc b cfg) (sc_len c) (sc_decl c)
+  | KConst _ => c
+  end.
+Definition with_len (n : Z) (c : scol) : scol := mkscol (sc_kind c) n (sc_decl c).
+
+Fixpoint sess_run (cols : list scol) (ticks : Z) (steps : list sstep) : list (result (list val * dtype)) :=
+  match steps with
+  | [] => []
+  | SNew c :: r => sess_run (cols ++ [c]) ticks r
+  | SMat i :: r => match nth_error cols i with
+                   | None => [Raise Unmodelled]
+                   | Some c => fst (scol_mat c ticks) :: sess_run cols (snd (scol_mat c ticks)) r
+                   end
+  | SSetCfg i cfg :: r => sess_run (set_col i (with_cfg cfg) cols) ticks r
+  | SSetLen i n :: r => sess_run (set_col i (with_len n) cols) ticks r
+  end.
+
+(* forgetting the declared sizes *)
+Definition erase_col (c : scol) : scol := mkscol (sc_kind c) (sc_len c) None.
+Definition erase_step (s : sstep) : sstep := match s with SNew c => SNew (erase_col c) | _ => s end.
+Definition pure_col (c : scol) : Prop := match sc_kind c with KFunc SCounter _ => False | _ => True end.
+
+Definition res2_eqb (a b : result (list val * dtype)) : bool :=
+  match a, b with
+  | Ok (x, d), Ok (y, e) => list_eqb val_eqb x y && dtype_eqb d e
+  | Raise e, Raise g => exn_eqb e g
+  | _, _ => false
+  end.
+
+Definition c09_check_session (c : list sstep * list (result (list val * dtype))) : bool :=
+  list_eqb res2_eqb (sess_run [] 0%Z (fst c)) (snd c).
+Definition c09_show_session (c : list sstep * list (result (list val * dtype))) := sess_run [] 0%Z (fst c).
